@@ -1073,6 +1073,36 @@ def check_connect(ctx):
             ctx.bad(rule2, p, 'future doing socket I/O is created without a timeout in %s' % bad, ctx.where(P.B(p)), key='TIMEOUT:%s' % p)
         else:
             ctx.ok(rule2, p, '%d creation site(s), each is the future argument of tokio::time::timeout' % len(sites), ctx.where(P.B(p)))
+    # the handshake messages are read off the framed transport: what it hands over is what THIS peer sent on THIS stream
+    from .c05 import transport_rules as _tr04
+    _tr04(ctx, 'C04.9-transport-discipline')
+    socket_after_guard(ctx, 'C04.8-socket-after-state-guard')
+
+
+def socket_after_guard(ctx, rule):
+    """a new socket is installed only after the state machine has accepted the transition out of Disconnected"""
+    P = ctx.P
+    ctx.rule(rule, 'the connection stores a new socket in its transport only after the handshake state machine has accepted the step (a refusing guard - connect() on a connection that is already up - '
+             'must leave the handshaken socket where it is: otherwise later sends pass the connected check and write distribution frames on a socket no handshake ran on)', floor=1)
+    n = 0
+    for q in sorted(ctx.F.bodies):
+        if not q.startswith('edp_client::connection::') or '::tests::' in q:
+            continue
+        DB = P.B(q)
+        inst = [bb for bb, t in DB.calls() if bb in DB.live_blocks() and (callee_of(t)[0] or '') == 'edp_client::transport::FramedTransport::connect']
+        if not inst:
+            continue
+        guards = [bb for bb, t in DB.calls() if (callee_of(t)[0] or '').startswith('edp_client::state_machine::HandshakeStateMachine::') and 'Result' in DB.local_ty(t['dst']['l'])]
+        for bb in inst:
+            n += 1
+            name = q.replace('edp_client::connection::', '').split('::{')[0]
+            if any(g != bb and DB.block_dominates(g, bb) for g in guards):
+                ctx.ok(rule, '%s:install' % name, 'the socket is stored after the state machine\'s guard', ctx.where(DB, bb))
+            else:
+                ctx.bad(rule, '%s:install' % name, '%s stores the new socket in the transport before (or without) asking the handshake state machine whether a connection may be started: '
+                        'when the guard refuses, the established socket is already gone and the state still says connected' % name, ctx.where(DB, bb), key='ORDER:%s:socket-before-state-guard' % q.split('::{')[0])
+    if n == 0:
+        ctx.ok(rule, 'none', 'no function of the connection installs a socket')
 
 
 def ctx_variant(B, op):
